@@ -457,6 +457,10 @@ class Inliner:
                     refs.add((owner, t["fn"]["def"]))
                     if t["fn"].get("resolved"):
                         refs.add((owner, t["fn"]["resolved"]["def"]))
+                if t["k"] == "call":
+                    for o in t["args"]:          # a function passed as a value: `.map(helper)`
+                        if isinstance(o, dict) and "const" in o and "fn" in o["const"]:
+                            refs.add((owner, o["const"]["fn"]["def"]))
                 for st in blk["stmts"]:
                     if st["k"] == "assign":
                         rv = st["rv"]
